@@ -111,6 +111,8 @@ func runC19(c *core.Ctx) {
 	c.RuleDoc("R19.4", "no invoke / lock-acquiring call while the blob mutex may be held")
 	c.RuleDoc("R19.5", "store to data field is followed by atomic length mirror")
 	c.RuleDoc("R19.11", "no Blob method returns a package-level (shared) blob")
+	c.RuleDoc("R19.14", "View and Slice of one blob type refuse the same arguments")
+	c.RuleDoc("R19.13", "no method of the slice-backed blob returns with its mutex held")
 	c.RuleDoc("R19.12", "the typed-array blob repeats each mutation on its Go-side cache with the same arguments")
 	c.RuleDoc("R19.10", "the typed-array blob never returns the slice that backs its Go-side cache")
 	c.RuleDoc("R19.9", "View and Slice never return the receiver itself")
@@ -146,6 +148,8 @@ func runC19(c *core.Ctx) {
 				r19SliceBacked(c, p, sh)
 				r19SameSection(c, p, sh, "R19.7")
 				r19NoPanic(c, p, sh)
+				r19NoLockLeak(c, p, sh, "R19.13")
+				r19ViewSliceAgree(c, p, sh)
 				if refGuards == nil {
 					refGuards = guardSets(sh)
 				}
@@ -175,6 +179,8 @@ func runC19(c *core.Ctx) {
 	c.Floor("R19.10", 1)
 	c.Floor("R19.11", 2)
 	c.Floor("R19.12", 3)
+	c.Floor("R19.13", 4)
+	c.Floor("R19.14", 1)
 }
 
 var blobOps = []string{"View", "Slice", "Set", "Grow", "Truncate"}
@@ -1239,4 +1245,82 @@ func r19MirrorPassesParams(c *core.Ctx, p *load.Program, n *types.Named) {
 	if cnt < 3 {
 		c.Hard("anchor: mirror calls of the typed-array blob on its cache (found %d)", cnt)
 	}
+}
+
+// r19NoLockLeak (R19.13 / R15.12): every return of a method of the slice-backed blob is reached with the blob's mutex
+// released — explicitly on that path, or by a deferred Unlock that dominates the return. The mutex is shared by a
+// file's contents and all its views: one error return that forgets to unlock blocks every handle of that file, in
+// every goroutine, for ever.
+func r19NoLockLeak(c *core.Ctx, p *load.Program, sh *blobShape, rule string) {
+	tk := typeKey(sh.named)
+	var names []string
+	for n := range sh.methods {
+		names = append(names, n)
+	}
+	sort.Strings(names)
+	for _, mn := range names {
+		fn := sh.methods[mn]
+		if fn == nil || fn.Blocks == nil {
+			continue
+		}
+		locks := false
+		type dfr struct {
+			ins  ssa.Instruction
+			path string
+		}
+		var defers []dfr
+		ssax.Instrs(fn, func(ins ssa.Instruction) {
+			ci, ok := ins.(ssa.CallInstruction)
+			if !ok {
+				return
+			}
+			op, path := ssax.MutexOp(ci)
+			if op == ssax.OpLock || op == ssax.OpRLock {
+				if _, isDefer := ins.(*ssa.Defer); !isDefer {
+					locks = true
+				}
+			}
+			if _, isDefer := ins.(*ssa.Defer); isDefer && (op == ssax.OpUnlock || op == ssax.OpRUnlock) {
+				defers = append(defers, dfr{ins, path})
+			}
+		})
+		if !locks {
+			continue
+		}
+		key := tk + "." + mn + "|mutex-released-on-every-return"
+		ls := ssax.Locksets(fn, false, nil)
+		bad := ""
+		for _, r := range ssax.Returns(fn) {
+			for k := range ls[r] {
+				released := false
+				for _, d := range defers {
+					if d.path == k && ssax.Dominates(d.ins, r) {
+						released = true
+					}
+				}
+				if !released {
+					bad = p.Pos(r.Pos())
+				}
+			}
+		}
+		c.Check(bad == "", rule, key, p.Pos(fn.Pos()), "no return is reached with the mutex held",
+			fmt.Sprintf("%s.%s can return at %s with the blob's mutex still locked (no Unlock on that path, no dominating deferred Unlock): the mutex is shared by the contents and all their views, so after one such return every handle of that file blocks for ever", tk, mn, bad))
+	}
+}
+
+// r19ViewSliceAgree (R19.14, sibling agreement): View(start, end) and Slice(start, end) of one Blob type refuse exactly
+// the same argument combinations — both select data[start:end], one aliasing, one copying. A bound that is off by one
+// in one of them (start >= len instead of start > len) refuses View(len, len), the empty view at the end, which the
+// byte-slice model and Slice accept.
+func r19ViewSliceAgree(c *core.Ctx, p *load.Program, sh *blobShape) {
+	gs := guardSets(sh)
+	v, okV := gs["View"]
+	s, okS := gs["Slice"]
+	if !okV || !okS {
+		return
+	}
+	key := typeKey(sh.named) + "|View-and-Slice-refuse-the-same-arguments"
+	same := strings.Join(v, ";") == strings.Join(s, ";")
+	c.Check(same && len(v) > 0, "R19.14", key, p.Pos(sh.named.Obj().Pos()), "View and Slice have the same error guards: "+strings.Join(v, "; "),
+		fmt.Sprintf("%s: View refuses {%s}, Slice refuses {%s}: the two select the same bytes and must accept the same ranges — one of them is off by one at a boundary (View(len, len) is the empty view at the end of the blob)", typeKey(sh.named), strings.Join(v, "; "), strings.Join(s, "; ")))
 }
